@@ -318,6 +318,80 @@ def model_eval(shard_id, coqs, fuel):
     return [(int(a[0]), [(int(me), [int(x) for x in l]) for me, l in a[1]], [int(x) for x in a[2]]) for a in res]
 
 
+# ---- one shared instance means one set of variables: an exported VARIABLE that changes after its export statement
+# (top-level re-assignment, `modify` from an exported function) is seen changed by every importer (Python statement)
+def live_export_cases(rng, n):
+    out = []
+    for _ in range(n):
+        a, b = rng.randint(0, 5), rng.randint(2, 30)
+        calls = [rng.choice(["direct", "worker", "peek", "read"]) for _ in range(rng.randint(3, 7))]
+        counter = ("print \"init counter\"\nexport hits: int = %d\nexport bump: fn() -> int = fn() -> int {\n\tmodify hits = hits + 1\n\treturn hits\n}\n"
+                   "hits = hits + %d\nexport peek: fn() -> int = fn() -> int {\n\treturn hits\n}\nsecret: int = 42\nhidden = 7\nconst sec2: int = 1\n" % (a, b))
+        worker = "print \"init worker\"\nimport counter\nexport work: fn() -> int = fn() -> int {\n\treturn counter.bump()\n}\nexport see: fn() -> int = fn() -> int {\n\treturn counter.hits\n}\n"
+        first = rng.choice(["counter", "worker"])
+        main = "import %s\nimport %s\n" % (first, "worker" if first == "counter" else "counter")
+        exp = ["init counter", "init worker"] if first == "counter" else ["init worker", "init counter"]
+        cur = a + b
+        for c in calls:
+            if c == "direct":
+                cur += 1
+                main += "print counter.bump()\n"
+            elif c == "worker":
+                cur += 1
+                main += "print worker.work()\n"
+            elif c == "peek":
+                main += "print counter.peek()\n"
+            else:
+                main += "print counter.hits\nprint worker.see()\n"
+                exp.append(str(cur))
+            exp.append(str(cur))
+        out.append(({"main.ms": main, "counter.ms": counter, "worker.ms": worker}, exp))
+    return out
+
+
+HIDDEN_ACCESS = ["import counter\nprint counter.secret\n", "import counter\nprint counter.hidden\n", "import counter\nprint counter.sec2\n",
+                 "import secret from counter\nprint secret\n", "import hidden from counter\nprint hidden\n", "import sec2 from counter\nprint sec2\n",
+                 "import counter\nx = counter.secret + 1\nprint x\n", "import hits, secret from counter\nprint hits\n"]
+
+
+def run_live_exports(ctx, binary):
+    base = ctx.mktemp()
+    cases = live_export_cases(ctx.rng, 30 if ctx.quick() else 300)
+
+    def one(c):
+        files, exp = c
+        d = programs.materialize({"files": files}, base)
+        r1 = programs.run_bin(binary, ["run", "main.ms", "-q"], d)
+        cc = programs.run_bin(binary, ["compile", "main.ms", "--quick"], d)
+        r2 = programs.run_bin(binary, ["execute", "main.mmm"], d) if cc[0] == 0 else None
+        shutil.rmtree(d, ignore_errors=True)
+        return r1, r2
+    n = 0
+    for (files, exp), (r1, r2) in zip(cases, programs.pmap(one, cases)):
+        for how, r in (("run", r1), ("compile+execute", r2)):
+            if r is None:
+                continue
+            n += 1
+            got = r[1].split("\n")[:-1]
+            if r[0] != 0 or got != exp:
+                ctx.report("shared-instance:exported-variable-not-live", "%s: importers do not see the current value of an exported variable: printed %r (exit %d), one shared instance prints %r" % (how, got[-6:], r[0], exp[-6:]),
+                           {"files": files, "expected": exp, "observed": got, "rc": r[0], "stderr": r[2][-300:], "how": "mscript run main.ms -q / compile + execute"})
+    files0 = cases[0][0]
+
+    def neg(text):
+        d = programs.materialize({"files": dict(files0, **{"main.ms": text})}, base)
+        r = programs.run_bin(binary, ["run", "main.ms", "-q"], d)
+        shutil.rmtree(d, ignore_errors=True)
+        return r
+    for text, r in zip(HIDDEN_ACCESS, programs.pmap(neg, HIDDEN_ACCESS)):
+        n += 1
+        if "Did not compile successfully" not in r[2] or "init counter" in r[1]:
+            ctx.report("hidden-name-visible", "a name the module does not export is reachable from an importer (`%s`): exit %d, stdout %r" % (text.replace("\n", "; "), r[0], r[1][-120:]),
+                       {"files": dict(files0, **{"main.ms": text}), "rc": r[0], "stdout": r[1][-300:], "stderr": r[2][-300:]})
+    ctx.cov["live_export_and_hidden_name_cases"] = n
+    return n
+
+
 def run(ctx):
     ok = core.coq_props(ctx, "Props/C11.v")
     binary = core.build_repo()
@@ -437,7 +511,8 @@ def run(ctx):
                        {"files": {"m0.ms": lines, "m1.ms": NEG_M1}, "rc": r[0], "stdout": r[1][-500:], "stderr": r[2][-500:]})
         shutil.rmtree(d, ignore_errors=True)
 
-    ctx.cov["evaluations"] = len(projs) + neg
+    nlive = run_live_exports(ctx, binary)
+    ctx.cov["evaluations"] = len(projs) + neg + nlive
     ctx.cov["distinct_nontrivial"] = nontrivial
     ctx.cov["exhaustive"] = True
     ctx.cov["exhaustive_part"] = ("3 modules: every DAG x {whole,names,both} x {before,between,after} per edge, both statement orders of the entry's two imports; "
